@@ -370,6 +370,28 @@ def run_model(lines):
     return [o for p in parallel(one, lines) for o in p]
 
 
+# prefix, fill byte, count, suffix (hex): hu + x…x + _HU,  x…x + _HU,  hu_HU + x…x,  hu_HU. + x…x (a long charset is fine)
+BIG_QUICK = ["loc getbig 6875 78 4294967299 5f4855", "loc getbig - 78 2147483653 5f4855", "loc getbig 68755f4855 78 4294967297 -"]
+BIG_MORE = ["loc getbig 68755f48552e 78 4294967297 -", "loc getbig 68755f 78 2147483653 -", "loc getbig 6875 78 4294967360 5f48552e5554462d38",
+            "loc getbig 48756e67617269616e5f48756e67617279 20 4294967296 -"]
+
+
+def run_big(binary, line):
+    """one multi-gigabyte call in its own process; ASan's printf interceptor is switched off for it (it keeps the length of a
+    %s argument in an int and reports its own overflow for 2 - 4 GiB strings; get() echoes its argument on stderr)"""
+    env = dict(os.environ)
+    env.update(lib.ASAN_ENV)
+    env["ASAN_OPTIONS"] = lib.ASAN_ENV["ASAN_OPTIONS"] + ASAN_EXTRA + ":symbolize=0:check_printf=0"
+    try:
+        p = subprocess.run([binary], input=(line + "\n").encode(), stdout=subprocess.PIPE, stderr=subprocess.PIPE, timeout=900, env=env)
+    except subprocess.TimeoutExpired:
+        return "!TIMEOUT"
+    out = p.stdout.decode("latin-1").strip().split("\n")
+    if p.returncode != 0 or not out or not out[-1]:
+        return "!ABORT rc=%d %s" % (p.returncode, seqtie.summarize_err(p.stderr[-6000:].decode("latin-1")))
+    return out[-1]
+
+
 def line_of(s):
     return "loc get " + hx(s)
 
@@ -414,6 +436,11 @@ def run_tie(prop, spec, tier, seed):
         res.failures.append(Failure("infra", "independent table parse failed: %r" % (e,)))
         return res
     orc = Oracle(lang, ctry)
+
+    # strings of 2 - 4 GiB (started now, collected at the end): `any length` includes part lengths that do not fit an int
+    big_lines = BIG_QUICK if tier == "quick" else BIG_QUICK + BIG_MORE
+    big_pool = ThreadPoolExecutor(max_workers=3)
+    big_jobs = [big_pool.submit(run_big, binary, l) for l in big_lines]
 
     # the four views of the tables
     tl, tc = locale_tables.parse_repo(lib.REPO)
@@ -545,6 +572,24 @@ def run_tie(prop, spec, tier, seed):
     if st_n == 0 and not res.failures:
         res.failures.append(Failure("infra", "harness made no static-initialisation calls"))
 
+    # the multi-gigabyte strings: the answer is that of the same string with a 70-byte fill (no table key is longer than
+    # 63 bytes and the fill byte is not a delimiter, so the two strings decompose alike)
+    nbig = 0
+    for l, job in zip(big_lines, big_jobs):
+        got = job.result()
+        t = l.split()
+        dec = lambda h: b"" if h == "-" else bytes.fromhex(h)
+        short = dec(t[2]) + dec(t[3]) * 70 + dec(t[5])
+        e = show(orc.get(short))
+        nbig += 1
+        if got != e:
+            res.failures.append(Failure("violation", "LocaleInfo::get(%r + %s x %r + %r): expected %s, got %s" %
+                                        (dec(t[2]).decode("latin-1"), t[4], dec(t[3]).decode("latin-1"), dec(t[5]).decode("latin-1"), pretty(e), pretty(got) if not got.startswith("!") else got[:300]),
+                                        signature=l, replay={"component": "locale", "ops": [l], "class": "huge", "expected": e, "got": got}))
+    big_pool.shutdown()
+    res.extra["huge_strings"] = nbig
+    res.rule += "; + %d strings of 2^31+5 … 2^32+3 bytes (a table key followed or preceded by that many fill bytes)" % nbig
+
     # model vs oracle
     if model is not None:
         bad = [i for i, (e, m) in enumerate(zip(exp, model)) if e != m]
@@ -584,6 +629,16 @@ def replay(prop, spec, path):
     orc = Oracle(lang, ctry)
     bad = False
     for l in ops:
+        if l.split()[1] == "getbig":
+            t = l.split()
+            dec = lambda h: b"" if h == "-" else bytes.fromhex(h)
+            e = show(orc.get(dec(t[2]) + dec(t[3]) * 70 + dec(t[5])))
+            o = run_big(binary, l)
+            print("input   %r + %s x %r + %r" % (dec(t[2]), t[4], dec(t[3]), dec(t[5])))
+            print("oracle  %s" % pretty(e))
+            print("impl    %s%s" % (pretty(o) if not o.startswith("!") else o, "" if o == e else "    <-- differs"))
+            bad = bad or o != e
+            continue
         static = l.split()[1] == "static"
         out, rc, err = run_bin(binary, [l], symbolize=True)
         o = out[0] if out else "!ABORT rc=%d %s" % (rc, seqtie.summarize_err(err))
